@@ -100,17 +100,21 @@ PROPS['C20'] = dict(
 
 PROPS['C05'] = dict(
   level='other',
-  kani=[dict(crate='trace', harnesses=['proofs::o05_2_dispatch'], kind='bounded', bound='12 of 13 object kinds (Map excluded), one raw object, unwind 15', timeout=1800, jobs=1, assumption_ids=['A-kani', 'A-stub', 'A-bound']),
+  kani=[dict(crate='trace', harnesses=['proofs::o05_2_dispatch_%s' % k for k in ['channel', 'class', 'closure', 'enumerator', 'fun', 'instance', 'list', 'method', 'native', 'string', 'lybox', 'tuple']],
+             kind='bounded', bound='12 of 13 object kinds (Map excluded: generic impl cannot be stubbed), one raw object per kind, unwind 15', timeout=1200, jobs=4, mem_gb=12, assumption_ids=['A-kani', 'A-stub', 'A-bound']),
         dict(crate='gc', harnesses=_GC_C05, kind='bounded', bound='one LyBox, one or two collections, unwind 4', timeout=2400, jobs=3, assumption_ids=['A-kani', 'A-stub', 'A-bound'])],
   explanation='bounded function-contract checks (Kani) on the real tracing dispatch and the real Allocator sweep; per-kind trace bodies and the VM/compiler root sets are NOT decided',
   not_decided=['O-05.1 per-kind trace bodies reach every child: CBMC loses pointer provenance through the Value enum (tool limit)',
                'root sets of Vm / Compiler / Fiber, natives\' push_root discipline, "same output under every collection schedule"'],
 )
 PROPS['C09'] = dict(
-  level='other',
-  kani=[dict(crate='gc', harnesses=_GC_C09, kind='bounded', bound='one 2-byte string, at most one full collection, unwind 10', timeout=2400, jobs=2, assumption_ids=['A-kani', 'A-stub', 'A-bound'])],
-  explanation='bounded function-contract checks (Kani) on the real Allocator::manage_str / has_str / sweep_intern_cache',
-  not_decided=['that every string-producing native and op goes through manage_str', 'Value equality/hash of strings is identity (C14 covers Value; interning makes identity == content only under the above)'],
+  level='proof',
+  verus=[dict(unit='intern', min_functions=3)],
+  kani=[dict(crate='gc', harnesses=['proofs::o09_intern_evicts_unrooted', 'proofs::o09_intern_keeps_rooted'], kind='bounded', tier='thorough',
+             bound='one 2-byte string, one full collection, unwind 10 (12-15 min each in CBMC: hashbrown; o09_intern_twice did not finish in 40 min and is not registered)', timeout=3000, jobs=2, mem_gb=16,
+             assumption_ids=['A-kani', 'A-stub', 'A-bound'])],
+  not_decided=['that every string-producing native and op goes through manage_str', 'Value equality/hash of strings is identity (C14 covers Value): identity == content only for interned strings',
+               'A-std: the hashbrown table behaves as a mathematical map keyed by string content (vx/units/intern/prelude.rs)'],
 )
 PROPS['C10'] = dict(
   level='other',
